@@ -22,6 +22,8 @@ def run(chk, replay=None):
     collide = streams.grammar_lines(rng, 1500 if th else 250, 1.0)
     for _, info in collide: info['kind'] = 'grammar_collide'
     cases += collide
+    from vlib import gen as _gen
+    cases += _gen.collide_lines(streams.vocab())     # every operator-argument name as a user field name, systematically
     streams.note_distribution(chk, cases)
     cfgs = streams.value_cfgs(rng, 8 if th else 3) + [Cfg(nums=True, bools=True, eager=['mydb', 'app_db', 'shop', 'd']), Cfg(encrypt=True, key=streams.KEY, nums=True, ips=True),
                                                     Cfg(repl='', nss=True), Cfg(eager=[''] if False else ['déb'], ips=True)]
